@@ -44,6 +44,49 @@ reg(
     "model-based stateful property testing (Hypothesis operation lists) against a list-of-records reference model",
 )
 
+reg(
+    "C01",
+    "Generated design spaces (mixed float/integer, finite/infinite/equal bounds), polynomial functions with exact dense/sparse "
+    "Jacobians and logging callables, every preprocessing configuration and a history of 1-15 value/Jacobian requests over a "
+    "small point pool are run against a numpy reference of the normalise/round/evaluate/record pipeline: returned value, "
+    "Jacobian in the caller's coordinates, database keys/entries/physical Jacobians and the exact set of calls of the user's "
+    "callables are compared after every request. Sampling, not proof; approximated derivatives use analytic error bounds.",
+    "Trusted: numpy, the harness reference (checks/c01_problem_eval.py, vlib/gen/problems.py). evaluate_functions' Jacobian "
+    "coordinates with a physical vector on normalised functions are counted but not asserted (statement ambiguous).",
+    "model-based property testing (Hypothesis request histories) against a numpy reference of the evaluation pipeline",
+)
+reg(
+    "C05",
+    "Drawn histories of execute/linearize calls (repeated, new, within-tolerance, partially defaulted and in-place modified "
+    "inputs, differentiated-subset changes, cache.clear, HDF5 re-instantiation) on a harness discipline under every cache "
+    "policy and tolerance; outputs and requested Jacobian blocks are compared exactly with the harness' numpy body and an "
+    "uncached gemseo twin, the body-run counter with the number of distinct inputs, caller arrays before/after. Sampling.",
+    "Trusted: numpy, the harness discipline body. Tolerance hits are only generated on grid classes >= 0.24 apart with members "
+    "< t/2 apart so that 'within t' is unambiguous. Empty HDF5 caches are not iterated/cleared (robustness bug outside the statement).",
+    "model-based property testing (Hypothesis operation lists) with an uncached twin and run counters as oracle",
+)
+reg(
+    "C11",
+    "Four generated round-trip families: Database store/export histories (append and overwrite, root and nested nodes, int and "
+    "float keys, scalar/vector/matrix/empty entries) reloaded after every export and compared with a model and with a single "
+    "final export; DesignSpace through HDF5/CSV/txt; OptimizationProblem.to_hdf/from_hdf field by field; HDF5Cache "
+    "re-instantiated on its file. HDF5 comparisons exact, text to 1e-15 relative. Sampling, bounded history length.",
+    "Trusted: numpy, h5py, the harness models. One target file/node per database (the pending buffer is per database). "
+    "Functions of a reloaded problem are matched by name (their order is not part of the statement).",
+    "round-trip property testing (Hypothesis store/export histories) against an in-memory model",
+)
+reg(
+    "C18",
+    "Generated learning sets, every derivative-capable regressor (Linear/Polynomial incl. penalised, RBF x 7 kernels x epsilon x "
+    "smooth, TPS, PCE, hard MOE, RegressorChain, OT GP), whole-group transformers (scalers, PCA, pipelines) and query points: "
+    "predict_jacobian is compared with a 3-step-size central stencil of predict under an adaptive tolerance, interpolating "
+    "settings must reproduce the learning outputs, transformer round trips and Jacobians are checked against stencils, and "
+    "SurrogateDiscipline must return exactly the model's predictions/Jacobians. Sampling; found and repaired 3 defects.",
+    "Trusted: numpy, the stencil reference with its self-estimated discretisation error. PCE / OT-GP Jacobians are OpenTURNS' "
+    "partly numerical gradients (tolerance floor 1e-4). Hard MOE is only checked away from class boundaries.",
+    "differential property testing (Hypothesis): model Jacobian vs multi-step finite-difference stencil of its own prediction",
+)
+
 NOT_YET: dict[str, str] = {}
 
 
